@@ -4,6 +4,7 @@
 (*              assignment), present (tuple), first, cur, q, op,                *)
 (*              sid, k (the k-th call of client history sid)],                  *)
 (*    got  |-> [outcome ("ok" | "error" | "hang"), seq, state_seq, sec, nsec,  *)
+(*              txn_max, txn_max_queried,                                       *)
 (*              count, reqs (tuple of [path, status, n]), ...]]                 *)
 (* produced by harness/cmd/c19 from the real Datasource.XxxStateAt /           *)
 (* CurrentXxxState; the calls of one history (one directory record) were made  *)
@@ -15,13 +16,15 @@ Lines == ndJsonDeserialize(IOEnv.REC)
 DirOfLine(ln)  == [present |-> {ln.case.present[i] : i \in 1 .. Len(ln.case.present)}, first |-> ln.case.first, cur |-> ln.case.cur]
 CaseOfLine(ln) == CaseOf(DirOfLine(ln), ln.case.q, NoDevs)
 RenderOfLine(ln) == [kind |-> ln.case.kind, skew |-> ln.case.skew, style |-> ln.case.style, prefix |-> ln.case.prefix,
-                     unit |-> ln.case.unit, pauselen |-> ln.case.pauselen,
+                     unit |-> ln.case.unit, pauselen |-> ln.case.pauselen, lay |-> ln.case.lay, lists |-> ln.case.lists,
                      pauses |-> {ln.case.pauses[i] : i \in 1 .. Len(ln.case.pauses)}]
 
-\* the search returned state n: sequence number (return value and State.SeqNum) and the timestamp read from its file
+\* the search returned state n: sequence number (return value and State.SeqNum), the timestamp and the transaction
+\* numbers read from its file (whatever layout the file has)
 Returned(ln, n) == LET g == ln.got   r == RenderOfLine(ln) IN
   /\ g.outcome = "ok" /\ g.seq = n /\ g.state_seq = n
   /\ g.sec = Sec(r, TS(n)) /\ g.nsec = Nsec(r.kind, TS(n))
+  /\ g.txn_max = TxnMax(r, n) /\ g.txn_max_queried = TxnMaxQueried(r, n)
 
 \* --- the property, clause by clause ---
 J_Terminates(ln)   == ln.got.outcome # "hang"
@@ -32,7 +35,7 @@ J_URLs(ln)         == \A i \in 1 .. Len(ln.got.reqs) :
 \* "for any replication directory ... looking up the state for a timestamp ... returns the first available state":
 \* the answer is a function of the directory and the time, not of the calls made before.  Line i must give the
 \* answer every earlier call of the same history with the same abstract time gave (the k-1 preceding lines).
-Answer(ln) == <<ln.got.outcome, ln.got.seq, ln.got.state_seq, ln.got.sec, ln.got.nsec>>
+Answer(ln) == <<ln.got.outcome, ln.got.seq, ln.got.state_seq, ln.got.sec, ln.got.nsec, ln.got.txn_max, ln.got.txn_max_queried>>
 J_HistoryIndependent(i) == LET ln == Lines[i]   lo == IF i - ln.case.k + 1 < 1 THEN 1 ELSE i - ln.case.k + 1 IN
   \A j \in lo .. (i - 1) :
      (Lines[j].case.sid = ln.case.sid /\ Lines[j].case.q = ln.case.q) => Answer(Lines[j]) = Answer(ln)
